@@ -183,6 +183,11 @@ def run(ctx, rep):
             if not okc:
                 fail(rp, ctx, cg.funcs[e.caller], e.rec.node, f"{e.caller} passes {show(a)[:80]} as `{p}` of {fq}: not the non-empty group the "
                                                              f"callee's first-element reads rely on")
+    # ---- the static types the obligations rely on: each kind's list holds data of that kind only (dispatcher S3, section wiring)
+    rty = rep.rule("B.kinds", "every parsed datum is filed under its own kind and every builder reads its own kind's list: attribute and "
+                              "method look-ups on data and events resolve as their annotations say", floor=10)
+    from .chain import check_chain
+    check_chain(ctx, rty, "all", strict=True, safe_skip=False)
     # ---- partial operations
     D = Discharger(ctx, contracts)
     ro = rep.rule("B.partial", "every partial operation on the parse path is discharged by a guard idiom", floor=30)
